@@ -30,6 +30,13 @@ def refinement(*conditions: Union[SymbolicExpression[T], bool, Predicate]) -> Sy
     new_conditions_root = ExceptIf(SymbolicExpression._current_parent_(), new_branch)
     new_branch._node_.weight = RDREdge.Refinement
     new_conditions_root._parent_ = prev_parent
+    if isinstance(prev_parent, BinaryOperator):
+        # The refined node was an operand of its parent (a refinement / alternative branch): the parent has to evaluate
+        # the refined rule in its place.
+        if prev_parent.left is current_node:
+            prev_parent.left = new_conditions_root
+        else:
+            prev_parent.right = new_conditions_root
     return new_conditions_root.right
 
 
